@@ -20,7 +20,7 @@ def conc(v, X):
 def concint(v, X):
     return v.c + v.k * len(X) if isinstance(v, SymInt) else v
 ops = []
-for i in (None, 0, 1, 2, -1):
+for i in (None, 0, 1, 2, -1, True, False):
     for j in (None, -1, -2, 0, 1, "len", "len-1", "len-2"):
         ops.append(("slice", i, j))
 for name in ("strip", "lstrip", "rstrip", "removeprefix", "removesuffix", "startswith", "endswith"):
